@@ -56,8 +56,9 @@ def run_c14(chk):
     if tier == "thorough":
         chk.leanchecker(["Properties.C14", "Proofs.Shift"])
     n = 120 if tier == "quick" else 2500
-    knobs = [Knobs(p_tz=0.0, p_limits=0.6, p_tasklimits=0.2, big_effort=0.3, p_leave=0.5, p_gvac=0.4),
-             Knobs(p_tz=0.0, envelope="alap", p_limits=0.5, p_leave=0.5)]
+    # durations in weeks only: with `+Nm` the declared end would not move by the same number of weeks (outside the premise)
+    knobs = [Knobs(p_tz=0.0, p_limits=0.6, p_tasklimits=0.2, big_effort=0.3, p_leave=0.5, p_gvac=0.4, p_month=0.0),
+             Knobs(p_tz=0.0, envelope="alap", p_limits=0.5, p_leave=0.5, p_month=0.0)]
     asts = [w for _, w in SC.witness_asts("C14")]
     asts += [gen.gen_project(chk.rng, knobs[i % 2]) for i in range(n)]
     weeks = [1, 4, 52, 53, 104, 261]
